@@ -22,6 +22,18 @@ CLAIMED: dict[str, tuple[str, str, str, str, str]] = {
         "Trusted: TLC, the projection functions of the replay harness, CPython's asyncio.Lock (used by the asyncio backend as its fair lock). "
         "Bounds: 3-4 tasks, <=6 acquisitions, <=3 cancellations; 3 senders x 2 chunks.",
     ),
+    "C20": (
+        "model_checking",
+        "TLA+ spec FlowControl (WriteFlowControl verbatim + asyncio future/callback discipline) model-checked by TLC incl. waiter liveness; "
+        "every edge of the TLC state graph replayed on the real WriteFlowControl with exact state comparison; scenario runs of the real "
+        "asyncio stream/datagram adapters (non-reading peer, RST, cancellation of one parked sender)",
+        "DESIGN.md section 6 (C20)",
+        "TLC explores all interleavings of pause/resume/connection_lost/close/cancel/wake-up for 3 senders; the real WriteFlowControl is "
+        "stepped through an edge-covering set of those behaviours (hand-driven coroutines, callbacks released by the harness) and must "
+        "match the specification state after every action; the real socket adapter is then checked end-to-end over loopback.",
+        "Trusted: TLC, the replay projection, CPython's selector transport calling pause_writing/resume_writing per its buffer limits. "
+        "Bounds: 3 senders, <=5 environment notifications, <=2 cancellations; stream scenarios use 2 MB payloads over 64 KiB socket buffers.",
+    ),
 }
 
 NOT_YET = "check not built yet in this revision of /verif (planned: see DESIGN.md section 0); not claimed until its check exists"
